@@ -13,8 +13,10 @@ HEADER = '''# replay for property %(pid)s
 # failed obligation : %(name)s
 # generated at      : %(where)s   kind=%(kind)s
 # verifier output   : z3 sat; counter-model of the named inputs follows
-# exit status: 1 = the real code violates the property clause on this input; 0 = not reproduced natively
-MODEL = %(model)s
+# exit status: 1 (and a line starting with VIOLATED) = the real code violates the property clause on this input;
+#              0 = not reproduced natively
+import json
+MODEL = json.loads(r"""%(model)s""")
 '''
 
 
@@ -63,7 +65,7 @@ def write_and_run(pid, ob, plan, ctx):
     try:
         p = subprocess.run([PY, "-W", "ignore", path], capture_output=True, text=True, timeout=600, env=native_env(), cwd=d)
         out = (p.stdout or "") + (p.stderr or "")
-        reproduced = p.returncode == 1
+        reproduced = p.returncode == 1 and "VIOLATED" in out
     except subprocess.TimeoutExpired:
         out, reproduced = "replay timed out", False
     with open(path, "a") as f:
@@ -77,7 +79,7 @@ GENERIC = r'''
 import sys
 sys.path.insert(0, %(native)r)
 import qvc_native as Q
-CONTRACT = %(contract)s
+CONTRACT = json.loads(r"""%(contract)s""")
 FUNCTION = %(function)r
 FOCUS = %(focus)r
 singles = MODEL.get("__singletons__") or {}
